@@ -15,14 +15,19 @@ package main
 //      under CSI 200~ (true) / CSI 201~ (false)
 //   e  the goroutine has the deferred recover→Close; the loop is unconditional, leaves only on EOF or
 //      the kill signal, and hands every other sequence to handleSequence
-//   f  SGR-1006 constants and field arithmetic of parseMouseEvent; MouseButton constants
+//   f  SGR-1006 decoding of parseMouseEvent, decided by evaluating the function over the report space in the
+//      AST interpreter and comparing with the reference decoding (c03_mouse_eval.go); the statement-shape
+//      formulation (c03_mouse.go) decides only when the function cannot be evaluated; MouseButton constants
 //   i  request flag / reply channel pairing (c03_req.go)
 //   g  user-input events are produced under exactly their dispatch keys (focus I/O, paste 200/201,
 //      mouse M/m) and depend on nothing but the report; a key-carrying final (u ~ R S) is consumed
 //      without an event only behind a discriminator no key report satisfies
+//   k  reply routing coherence (c03_route.go)
+//   l  no stale reply: a buffered reply channel is drained by every waiter before its query (c03_stale.go)
 
 // Before any rule runs, c03Normalise (c03norm.go) substitutes single-definition boolean flags into their uses and
-// unrolls range loops over small constant tables, so that the rules see the conditions / rows themselves.
+// unrolls range loops over small constant tables, so that the rules see the conditions / rows themselves, and
+// replaces local working-variable structs by one local per field (c03sra.go).
 // Rule h also follows local lists in which a CSI.Parameters value is built before it is stored (c03_len.go).
 
 import (
